@@ -25,7 +25,9 @@ func stageRef(c stage.Cfg) ref {
 	r := ref{outs: map[string][]string{}}
 	add := func(n string, v any) { r.outs[n] = append(r.outs[n], fmt.Sprint(v)) }
 	call := func(x int) { r.calls = append(r.calls, fmt.Sprint(x)) }
-	fails := func(x int) bool { return c.Mode != "pure" && stage.Bit(c.Mask, x) }
+	fails := func(x int) bool {
+		return c.Mode != "pure" && ((x < 62 && stage.Bit(c.Mask, x)) || (c.FailFrom > 0 && x >= c.FailFrom))
+	}
 	if c.Any {
 		// identity functions over `any` elements: every output is the input, nil interface values included
 		r.names = []string{"got"}
@@ -122,6 +124,13 @@ func stageRef(c stage.Cfg) ref {
 	case "fold":
 		r.names = []string{"got"}
 		add("got", foldAff(c.K))
+	case "fold100":
+		r.names = []string{"got"}
+		acc := 100
+		for x := 1; x <= c.K; x++ {
+			acc = acc*2 + x
+		}
+		add("got", acc)
 	case "seq":
 		r.names = []string{"got"}
 		for x := 1; x <= c.K; x++ {
@@ -215,6 +224,18 @@ func stageName(c stage.Cfg) string {
 	}
 	if c.Idle {
 		b.WriteString(" producer-goes-idle")
+	}
+	if c.Late > 0 {
+		fmt.Fprintf(&b, " consumer-late-before-receive-%d", c.LateAt)
+	}
+	if c.Dup {
+		b.WriteString(" same-channel-twice")
+	}
+	if c.Interval != 0 {
+		fmt.Fprintf(&b, " interval=%d", max(c.Interval, 0))
+	}
+	if c.FailFrom > 0 {
+		fmt.Fprintf(&b, " fails-from=%d", c.FailFrom)
 	}
 	if c.Any {
 		b.WriteString(" elements=any/nil")
